@@ -698,7 +698,65 @@ class TmanaSuppression(Contract):
         return r.replay_small("tmana")
 
 
-CONTRACTS = [CleanByDistance, PointPairwiseDist, TmanaBookkeeping, TmanaSuppression]
+class RotAnglesLoad(Contract):
+    """ioutils.rot_angles_load, the callee that TmanaBookkeeping's angle list comes from: one row (phi, theta, psi) per input row -- for "zzx" input
+    rows (phi, psi, theta) -- from an array or a three-column csv file, and an array argument is left as it was (it is reused for every tomogram)"""
+    prop = "C07"
+    module = "ioutils"
+    qual = "rot_angles_load"
+    configs = [{"src": s_, "order": o} for s_ in ("array", "file") for o in ("zxz", "zzx")]
+
+    def cfg_name(self, cfg):
+        return f"{cfg['src']},{cfg['order']}"
+
+    def bind(self, cx, cfg):
+        from vfw.interp import Interp
+        from vfw.models import misc
+        sp = frames.Space(tag="angles")
+        a = [SV(z3.Real(f"ang{j}")) for j in range(3)]
+        arr = frames.RowArr(list(a), sp)
+        fr = frames.GFrame([0, 1, 2], {j: a[j] for j in range(3)}, sp)
+        pdm = misc.PD()
+
+        class PDX:
+            def __getattr__(self, k):
+                return getattr(pdm, k)
+
+            @staticmethod
+            def read_csv(path, **k):
+                return fr
+
+        class OsPath:
+            @staticmethod
+            def exists(p):
+                return True
+
+        class Os:
+            path = OsPath
+
+        g = common.base_globals()
+        g.update({"pd": PDX(), "os": Os})
+        it = Interp("ioutils", g)
+        arg = arr if cfg["src"] == "array" else "angles.csv"
+        return (lambda: it.function("rot_angles_load")(arg, cfg["order"])), {"a": a, "arr": arr, "sp": sp}
+
+    def post(self, cx, cfg, inp, res):
+        a = [x.t for x in inp["a"]]
+        want = a if cfg["order"] == "zxz" else [a[0], a[2], a[1]]
+        if not (isinstance(res, frames.RowArr) and res.k == 3):
+            return [("one_row_of_three_angles_per_input_row", z3.BoolVal(False))]
+        cl = [("one_row_of_three_angles_per_input_row", z3.And(z3.BoolVal(res.space.pos_id == inp["sp"].pos_id), z3.simplify(res.present) == z3.BoolVal(True))),
+              ("rows_are_phi_theta_psi", z3.And(*[zr(res.vals[j]) == want[j] for j in range(3)]), ())]
+        if cfg["src"] == "array":
+            cl.append(("argument_array_unchanged", z3.And(*[zr(inp["arr"].vals[j]) == a[j] for j in range(3)]), ()))
+        return cl
+
+    def replay(self, clause, model, cfg):
+        from rtc import c07 as r
+        return r.replay_angles_load(cfg["order"], cfg["src"])
+
+
+CONTRACTS = [CleanByDistance, PointPairwiseDist, TmanaBookkeeping, TmanaSuppression, RotAnglesLoad]
 LEVEL = "other"
 EXPLANATION = ("Motl.clean_by_distance on the real AST: the loop over groups as an arbitrary iteration, the greedy loop over the argsort order by a quantified inductive invariant (visited kept particles have cleared their "
                "neighbourhood; every removed particle has a kept, earlier-ranked 'killer' within d - ghost function), exit facts give separation, domination with equal-or-better score and group isolation; "
